@@ -32,11 +32,17 @@ package indent
 //@     invariant _k == 0 ==> actual == 0 && remain == underlay
 //@     invariant actual + cb(remain, prefix, back(lines), off(lines), _k, len(lines)) == cb(underlay, prefix, back(lines), off(lines), 0, len(lines))
 //
-//@ func (*iw).Write props C20
+// Write changes the line-state flag of the writer (and, through the writer
+// underneath, of nested indenting writers) and nothing else that existed: in
+// particular no package-level buffer and no backing array it shares with
+// anything -- which is what lets several goroutines print at the same time
+// (C19).
+//@ func (*iw).Write props C20 C19
 //@   requires w != nil
 //@   ensures  result1 == nil ==> result == len(buf)
 //@   ensures  len(buf) == 0 ==> result == 0 && result1 == nil
 //@   ensures  result >= 0
+//@   modifies iw.partial
 //
 //@ func NewWriter props C20
 //@   ensures  indent == "" ==> result == w
